@@ -277,7 +277,7 @@ func Handle(c *core.Check, st core.State) {
 							kindSig = "unknown"
 						}
 						// localise to the smallest sub-expression that is itself unsound under the same scopes
-						small, _ := e1.Localise(v.Node, func(sub *e1.Node, extra map[string]cty.Value) bool {
+						small, smallExtra := e1.Localise(v.Node, func(sub *e1.Node, extra map[string]cty.Value) bool {
 							se, sd := hclsyntax.ParseExpression([]byte(e1.Render(sub, e1.Layout{})), "sub.hcl", hcl.InitialPos)
 							if sd.HasErrors() {
 								return false
@@ -285,14 +285,22 @@ func Handle(c *core.Check, st core.State) {
 							a, ad := se.Value(&hcl.EvalContext{Variables: e1.With(absScope, extra), Functions: funcs})
 							cc, cd := se.Value(&hcl.EvalContext{Variables: e1.With(cs, extra), Functions: funcs})
 							return !ad.HasErrors() && !cd.HasErrors() && approx(a, cc, "result") != ""
-						}, nil)
+						}, func(sub *e1.Node, extra map[string]cty.Value) (cty.Value, bool) {
+							se, sd := hclsyntax.ParseExpression([]byte(e1.Render(sub, e1.Layout{})), "sub.hcl", hcl.InitialPos)
+							if sd.HasErrors() {
+								return cty.NilVal, false
+							}
+							val, vd := se.Value(&hcl.EvalContext{Variables: e1.With(cs, extra), Functions: funcs})
+							return val, !vd.HasErrors()
+						})
 						sig := "unsound/" + kindSig + "/" + e1.Fam(small)
 						if (small.K == "bin" && (small.S == "==" || small.S == "!=")) && equalityNestedDynamic(small, absScope, funcs) {
 							// root cause in go-cty: Value.Equals answers False for a known value whose type
 							// has dynamic parts against an unknown value of a different (but conformable) type
 							sig = "unsound/equality/known-nested-dynamic-vs-unknown"
 						}
-						if condDynamicArm(v.Node, absScope, funcs) || condArmTypeShift(v.Node, absScope, cs, funcs) {
+						if condDynamicArm(v.Node, absScope, funcs) || condArmTypeShift(v.Node, absScope, cs, funcs) ||
+							condDynamicArm(small, e1.With(absScope, smallExtra), funcs) || condArmTypeShift(small, e1.With(absScope, smallExtra), e1.With(cs, smallExtra), funcs) {
 							// root cause: a conditional with one dynamically-typed arm returns the other
 							// arm without converting it to the type the two arms will unify to
 							sig = "unsound/cond-dynamic-arm"
